@@ -19,7 +19,7 @@ RULE = ('case = (direction, body class, literal metadata, compression, cipher, r
 ASSUMPTIONS = ['cryptography/OpenSSL RSA, ECDH and raw block ciphers', 'vf.ref sym/pk (self-consistent, and cross-checked against gpg in this check when gpg is present)']
 MIN_COUNTERS = {'quick': {'pgpy_roundtrips': 100, 'ref_opened_pgpy_output': 100, 'pgpy_opened_ref_output': 100, 'ciphers_seen': 9},
                 'thorough': {'pgpy_roundtrips': 1500, 'ref_opened_pgpy_output': 1500, 'pgpy_opened_ref_output': 800}}
-BUDGET = {'quick': (240, 800), 'thorough': (1800, 3600)}
+BUDGET = {'quick': (600, 1500), 'thorough': (1800, 3600)}
 TECHNIQUE = 'runtime monitoring: differential reference-model monitor (independent RFC 4880/6637 decryptor and encryptor) + GnuPG second oracle'
 
 PASSES = ['correct horse', 'pässwörd 日本', 'x', 'a' * 300]
